@@ -12,7 +12,10 @@ use std::sync::atomic::{AtomicBool, AtomicU64, AtomicUsize, Ordering};
 use std::sync::Mutex;
 use std::time::{Duration, Instant};
 
-pub const LIMIT: Duration = Duration::from_secs(20);
+/// Generous on purpose: the slowest legitimate case takes milliseconds, and a
+/// false alarm on a starved or frozen machine would be a false VIOLATION.
+pub const LIMIT: Duration = Duration::from_secs(90);
+const POLL: Duration = Duration::from_millis(250);
 
 struct Slot {
     seq: AtomicU64,
@@ -98,8 +101,13 @@ impl Watch {
 
     fn monitor(&self, ctx: &'static Ctx) {
         let mut last: Vec<(u64, Instant)> = self.slots.iter().map(|_| (0, Instant::now())).collect();
+        // A stall must persist over this many of the monitor's own polls as
+        // well as over LIMIT of wall time: a frozen VM or a starved machine
+        // stops the monitor together with the workers and must not count.
+        let need_polls = (LIMIT.as_millis() / POLL.as_millis()) as u32;
+        let mut polls: Vec<u32> = vec![0; self.slots.len()];
         loop {
-            std::thread::sleep(Duration::from_millis(250));
+            std::thread::sleep(POLL);
             if self.done.load(Ordering::SeqCst) {
                 return;
             }
@@ -107,9 +115,11 @@ impl Watch {
                 let seq = s.seq.load(Ordering::Acquire);
                 if seq != last[i].0 || !s.busy.load(Ordering::Acquire) {
                     last[i] = (seq, Instant::now());
+                    polls[i] = 0;
                     continue;
                 }
-                if last[i].1.elapsed() >= LIMIT {
+                polls[i] += 1;
+                if last[i].1.elapsed() >= LIMIT && polls[i] >= need_polls {
                     if self.done.swap(true, Ordering::SeqCst) {
                         return;
                     }
@@ -150,5 +160,21 @@ pub fn run_with_timeout<R: Send + 'static>(f: impl FnOnce() -> R + Send + 'stati
     std::thread::spawn(move || {
         let _ = tx.send(f());
     });
-    rx.recv_timeout(LIMIT).ok()
+    // Same rule as the monitor: LIMIT of wall time made of this thread's own
+    // short waits, so that a frozen machine does not count as a hang.
+    let need = (LIMIT.as_millis() / POLL.as_millis()) as u32;
+    let start = Instant::now();
+    let mut waits = 0u32;
+    loop {
+        match rx.recv_timeout(POLL) {
+            Ok(r) => return Some(r),
+            Err(std::sync::mpsc::RecvTimeoutError::Disconnected) => return None,
+            Err(std::sync::mpsc::RecvTimeoutError::Timeout) => {
+                waits += 1;
+                if waits >= need && start.elapsed() >= LIMIT {
+                    return None;
+                }
+            }
+        }
+    }
 }
